@@ -34,6 +34,22 @@ let rec build_table (tbl : lf_res list) (toks : string list) : lf_res list * str
       if fl land 1 <> 0 then r := lf_set_obs !r true;
       build_table (lf_register tbl !r) !rest
   | "D" :: path :: tl -> build_table (lf_unregister tbl (bytes_of_tok path)) tl
+  | "M" :: n :: tl ->
+      let n = int_of_string n in
+      let t = ref tbl in
+      let bytes_of_string s = List.init (String.length s) (fun i -> zbyte.(Char.code s.[i])) in
+      for k = 0 to n - 1 do
+        let r = ref (lf_res_init (bytes_of_string (Printf.sprintf "r/%d" ((k * 7919) mod 10007)))
+                       ((k mod 4) land 2 <> 0)) in
+        if k mod 3 <> 0 then
+          r := lf_add_attr !r (bytes_of_string "rt") (Some (bytes_of_string (Printf.sprintf "\"t%d s\"" (k mod 5))));
+        if (k mod 4) land 1 <> 0 then r := lf_set_obs !r true;
+        t := lf_register !t !r;
+        if k mod 17 = 5 then
+          t := lf_unregister !t (bytes_of_string (Printf.sprintf "r/%d" (((k - 3) * 7919) mod 10007)))
+      done;
+      build_table !t tl
+  | ("U" | "P") :: tl -> build_table tbl tl     (* unknown / proxy-URI resource: not in the table *)
   | _ -> (tbl, toks)
 
 let filter_of_tok t = if t = "~" then None else Some (bytes_of_tok t)
